@@ -86,6 +86,9 @@ def _case(fams: dict):
         "kind": st.just("cb1"), "keys": st.lists(K.rsa_key_desc(), min_size=n, max_size=n, unique_by=lambda d: (d["bits"], d["i"])),
         "enc": enc_list(n), "enc2": enc_list(n), "used": st.integers(0, n - 1), "family": st.integers(0, 99), "password": st.booleans(),
         "chain_extra": st.integers(0, 2), "cli": st.integers(0, 9), "swap": st.tuples(st.integers(0, 3), st.integers(0, 3)),
+        # the slots of the 4-entry table the keys are put in (certificate block v1 built through the API): None = 0..n-1, else any
+        # increasing choice, so that used entries may be separated by empty ones
+        "slots": st.one_of(st.none(), st.none(), st.lists(st.integers(0, 3), min_size=n, max_size=n, unique=True).map(sorted)),
     }))
     cb21 = st.sampled_from(["secp256r1", "secp384r1"]).flatmap(lambda cv: st.integers(1, 4).flatmap(lambda n: st.fixed_dictionaries({
         "kind": st.just("cb21"), "curve": st.just(cv), "scalars": st.lists(K.ec_scalars(cv, 0.3), min_size=n, max_size=n, unique=True),
@@ -227,6 +230,58 @@ def _common_labels(case, o, descs, encs):
     o.sample({"kind": case["kind"], "keys": [d.get("bits", d.get("curve")) for d in descs], "encodings": encs, "used": case.get("used")})
 
 
+def _cert_block_config(case, o: Oracle, work: str, kind: str, family: str, descs, used: int, ref: bytes) -> None:
+    """The certificate block built from a configuration (what `nxpimage cert-block export`, the MBI / SB builders and
+    `pfr generate-binary -e` read): root files named by slot number, the keys of the mapping written in an order the case picks."""
+    import yaml
+
+    from spsdk.utils.crypto.cert_blocks import CertBlockV1, CertBlockV21, find_root_certificates, get_keys_or_rotkh_from_certblock_config
+    from vf.core import reorder
+
+    salt = case["family"] + 7 * case["cli"]
+    d = os.path.join(work, "cbcfg-%d" % os.getpid())
+    os.makedirs(d, exist_ok=True)
+    names = []
+    for i, desc in enumerate(descs):
+        if kind == "cb1":
+            data = K.cert_der(_self_cert(desc, True)) if (salt + i) % 2 else K.cert_pem(_self_cert(desc, True))
+        else:
+            data = K.public_pem(K.key_from_desc(desc)) if (salt + i) % 2 else K.public_der(K.key_from_desc(desc))
+        name = "slot%d-%s.bin" % (i, hashlib.sha256(data).hexdigest()[:8])
+        with open(os.path.join(d, name), "wb") as f:
+            f.write(data)
+        names.append(name)
+    cfg = {"family": family, "mainRootCertId": used if salt % 2 else str(used), "imageBuildNumber": 1}
+    for i, name in enumerate(names):
+        cfg["rootCertificate%dFile" % i] = name
+    if kind == "cb21":
+        cfg["useIsk"] = False
+    cfg = reorder(cfg, salt)
+    o.label("cb_config", "cb_config_order:%d" % (salt % 3))
+    first_root = next(k for k in cfg if k.startswith("rootCertificate"))
+    if len(descs) > 1 and first_root != "rootCertificate0File":
+        o.label("cb_config:roots_not_ascending")
+    with o.spsdk("cert_block_config", kind):
+        o.eq("cert_block_config", "find_root_certificates", find_root_certificates(dict(cfg)), names)
+        if kind == "cb1":
+            cb = CertBlockV1.from_config(dict(cfg), search_paths=[d])
+            o.eq("cert_block_config", "rkh_index", cb.rkh_index, used)
+        else:
+            cb = CertBlockV21.from_config(dict(cfg), search_paths=[d])
+            m = CertBlockV21Ref(cb.export())
+            o.eq("cert_block_config", "used_root", m.used_root, used)
+            x, y = K.ec_public_xy(descs[used]["curve"], descs[used]["d"])
+            o.eq("cert_block_config", "root_key", (m.root_x, m.root_y), (x, y))
+        o.eq("reference", "cert_block_config.rkth", cb.rkth, ref)
+        # the file form, as the PFR tool reads it to find the keys of the RoT
+        path = os.path.join(d, "cert_block.yaml")
+        with open(path, "w", encoding="utf-8") as f:
+            yaml.safe_dump(cfg, f, sort_keys=False)
+        keys, rotkh = get_keys_or_rotkh_from_certblock_config(path, family)
+        o.eq("cert_block_config", "pfr_key_list", [os.path.basename(k) for k in (keys or [])], names)
+        o.check("cert_block_config", rotkh is None, "pfr_rotkh_from_yaml", str(rotkh))
+
+
 def _run_cb1(case, o, fams, work) -> None:
     from spsdk.crypto.certificate import Certificate
     from spsdk.utils.crypto.cert_blocks import CertBlockV1
@@ -281,11 +336,20 @@ def _run_cb1(case, o, fams, work) -> None:
         cb = CertBlockV1(build_number=1)
         for c in certs:
             cb.add_certificate(Certificate.parse(K.cert_der(c)))
+        slots = list(case.get("slots") or range(len(descs)))
+        if slots != list(range(len(descs))):
+            # a table with empty entries between used ones: the position of a hash is part of what is hashed
+            o.label("cb1:sparse_table")
+            sparse = [bytes(32)] * 4
+            for i, sl in enumerate(slots):
+                sparse[sl] = R.rkh_v1(raw[i][1], raw[i][2])
+            ref = hashlib.sha256(b"".join(sparse)).digest()
         for i, d in enumerate(descs):
             if i % 2:
-                cb.set_root_key_hash(i, R.rkh_v1(raw[i][1], raw[i][2]))
+                cb.set_root_key_hash(slots[i], R.rkh_v1(raw[i][1], raw[i][2]))
             else:
-                cb.set_root_key_hash(i, Certificate.parse(K.cert_der(_self_cert(d, False))))
+                cb.set_root_key_hash(slots[i], Certificate.parse(K.cert_der(_self_cert(d, False))))
+        used = slots[used]
         o.eq("reference", "certblockv1.rkth", cb.rkth, ref)
         o.eq("cert_block_v1", "rkh_index", cb.rkh_index, used)
         cb.image_length = 1024
@@ -299,7 +363,15 @@ def _run_cb1(case, o, fams, work) -> None:
         o.check("cert_block_v1", not m.check_chain(), "model_chain", str(m.check_chain()))
         fuses = cb.rkth_fuses
         o.eq("cert_block_v1", "rkth_fuses", b"".join(f.to_bytes(4, "little") for f in fuses), ref)
+        o.eq("cert_block_v1", "parsed_rkh_index", back.rkh_index, used)
+        o.eq("cert_block_v1", "parsed_rkth_fuses", b"".join(f.to_bytes(4, "little") for f in back.rkth_fuses), ref)
+        # the bare table of the block, read back on its own
+        tbl = RKHTv1.parse(b"".join(m.rkh))
+        o.eq("reference", "rkhtv1.parsed_table_rkth", tbl.rkth(), ref)
     o.label("chain:%d" % (1 + case["chain_extra"]))
+    if slots != list(range(len(descs))):
+        return  # the key-list tools below have no notion of an empty entry
+    _cert_block_config(case, o, work, "cb1", family, descs, case["used"], ref)
     _pfr_and_cli(case, o, family, descs, ref, work, "cert_block_1")
 
 
@@ -455,6 +527,7 @@ def _run_cb21(case, o, fams, work) -> None:
             o.eq("cert_block_v21", "isk_user_data", m.isk["user_data"], user_data)
             o.eq("cert_block_v21", "isk_key", (m.isk["x"], m.isk["y"]), K.ec_public_xy(isk["curve"], isk["d"]))
             o.label("isk")
+    _cert_block_config(case, o, work, "cb21", family, descs, used, ref)
     _pfr_and_cli(case, o, family, descs, ref, work, "cert_block_21")
 
 
